@@ -1,7 +1,9 @@
 import Driver.Common
 import Driver.Replay
+import Driver.Ring
 
 def main (args : List String) : IO UInt32 := do
   match args with
   | ["replay", mode] => Driver.runComponent (Driver.Replay.comp mode); return 0
+  | ["ring"] => Driver.runComponent Driver.Ring.comp; return 0
   | _ => IO.eprintln "usage: vdrv <component> [args]"; return 2
